@@ -699,6 +699,7 @@ func ruleP10Accessors(p *Prog, r *Report) {
 		// through nothing but one-for-one character replacements (tab -> blank), styling and %s
 		bad := ""
 		nQuote := 0
+		var quoteHelperSites map[*ssa.Function][]ssa.Value
 		eachInstrIn(withAnons(pp), func(in ssa.Instruction) {
 			c, ok := in.(ssa.CallInstruction)
 			if !ok || !c.Common().IsInvoke() || c.Common().Method.Name() != "LineText" || c.Value() == nil {
@@ -732,10 +733,32 @@ func ruleP10Accessors(p *Prog, r *Report) {
 								}
 							}
 						}
+					case *ssa.Return:
+						// the result of a helper the line was handed to: on at its call sites
+						for _, site := range quoteHelperSites[x.Parent()] {
+							work = append(work, site)
+						}
 					case ssa.CallInstruction:
 						g := staticCallee(x)
 						name := calleeName(x)
 						switch {
+						case g != nil && isHelper(g) && len(g.Blocks) > 0 && x.Value() != nil && func() bool {
+							for i, a := range x.Common().Args {
+								if a == v && i < len(g.Params) {
+									return true
+								}
+							}
+							return false
+						}():
+							for i, a := range x.Common().Args {
+								if a == v && i < len(g.Params) {
+									work = append(work, g.Params[i])
+								}
+							}
+							if quoteHelperSites == nil {
+								quoteHelperSites = map[*ssa.Function][]ssa.Value{}
+							}
+							quoteHelperSites[g] = append(quoteHelperSites[g], x.Value())
 						case g != nil && (g.String() == "strings.Replace" || g.String() == "strings.ReplaceAll") && x.Common().Args[0] == v:
 							o, ok1 := constString(x.Common().Args[1])
 							nw, ok2 := constString(x.Common().Args[2])
@@ -850,6 +873,9 @@ func ruleP10Order(p *Prog, r *Report) {
 					}
 					if a, ok := l.(*ssa.Alloc); ok && len(storesTo(a)) == 0 {
 						continue
+					}
+					if isEmptySliceLit(l) {
+						continue // make([]T, 0, n): empty, with room
 					}
 					bad = "the accumulator is not only extended at its end: it is (re)built from " + l.String() + " at " + p.pos(l.Pos())
 				}
